@@ -3,6 +3,7 @@ package tree
 import (
 	"context"
 	"math"
+	"slices"
 	"strings"
 	"sync"
 	"time"
@@ -218,7 +219,14 @@ func (c *TreeCacheClientImpl) ReadRunningPath(ctx context.Context, path PathSlic
 		PriorityCount: 1,
 	}, [][]string{path})
 
-	return updates[0], nil
+	// the cache answers with everything below the path and matches string prefixes (eth1 / eth10),
+	// the value of the path itself is the one with exactly these elements
+	for _, u := range updates {
+		if slices.Equal(u.GetPath(), []string(path)) {
+			return u, nil
+		}
+	}
+	return nil, nil
 }
 
 // ReadRunning reads the value from running if the value does not exist, nil is returned
